@@ -517,6 +517,114 @@ func (g *gen) twoMasksValue(o *vcoq.Out) {
 		"several simultaneous Value subscriptions with different read masks")
 }
 
+// cancelDuringDelivery: 3-5 backpressured subscribers on one collection; while the bus is part-way
+// through delivering a write (held up by a subscriber whose consumer is not receiving) a subscriber
+// registered after that one cancels; then the stalled consumer resumes.  Every surviving subscriber
+// must still receive exactly one event per successful write, in write order (one CaseCPull per
+// surviving subscriber).  The only timed element is a pause that lets the cancellation be processed
+// before the stalled consumer resumes: it decides which interleaving is exercised, never the verdict.
+func (g *gen) cancelDuringDelivery(o *vcoq.Out) {
+	r := g.r
+	g.config()
+	g.hasW = false
+	w := g.newWorld(nil)
+	ctx, cancel := context.WithCancel(context.Background())
+	defer cancel()
+	nsub := r.Range(3, 5)
+	stall := r.Intn(nsub - 2)                // the consumer that stops receiving
+	quit := stall + 1 + r.Intn(nsub-stall-2) // cancels during the delivery; registered after [stall], not the last one
+	ro := fro{updatesOnly: true}
+	type sub struct {
+		mu     sync.Mutex
+		got    []ochange
+		done   chan struct{}
+		gate   chan struct{} // closed = receive freely
+		cancel context.CancelFunc
+	}
+	subs := make([]*sub, nsub)
+	for k := 0; k < nsub; k++ {
+		sctx, scancel := context.WithCancel(ctx)
+		sb := &sub{done: make(chan struct{}), gate: make(chan struct{}), cancel: scancel}
+		subs[k] = sb
+		ch := w.coll.Pull(sctx, ro.opts(true)...)
+		if k != stall {
+			close(sb.gate)
+		}
+		go func() {
+			defer close(sb.done)
+			<-sb.gate
+			for c := range ch {
+				sb.mu.Lock()
+				sb.got = append(sb.got, ochange{id: c.Id, tx: exactNanos(c.ChangeTime), kind: kindCode(c.ChangeType), old: fromProto(c.OldValue), new_: fromProto(c.NewValue), seed: c.SeedValue, last: c.LastSeedValue})
+				sb.mu.Unlock()
+			}
+		}()
+	}
+	var n int64
+	ids := []string{"a", "b"}
+	var after []*fop
+	var codes []int64
+	write := func() {
+		op := &fop{kind: 2, id: ids[r.Intn(len(ids))], msg: g.counterMsg(&n), o: &fwo{create: true}, cands: g.cands(false)}
+		ob := w.exec(op)
+		after = append(after, op)
+		codes = append(codes, ob.js.(map[string]any)["code"].(int64))
+	}
+	// the first write is taken by every Pull goroutine; the stalled one then sits on it
+	write()
+	// the second write is held up at the stalled subscriber
+	wrote := make(chan struct{})
+	go func() { defer close(wrote); write() }()
+	// wait until the delivery has passed the subscribers before the stalled one (or is at the stalled one right away)
+	deadline := time.Now().Add(2 * time.Second)
+	for stall > 0 && time.Now().Before(deadline) {
+		subs[0].mu.Lock()
+		k := len(subs[0].got)
+		subs[0].mu.Unlock()
+		if k >= 2 {
+			break
+		}
+		time.Sleep(200 * time.Microsecond)
+	}
+	subs[quit].cancel()
+	<-subs[quit].done
+	time.Sleep(3 * time.Millisecond)
+	close(subs[stall].gate)
+	<-wrote
+	for i := r.Range(1, 3); i > 0; i-- {
+		write()
+	}
+	final := w.list(ro)
+	w.coll.Update(barrierID, toProto(fmsg{1000, 1000, 1000}), resource.WithCreateIfAbsent(), resource.WithAllFieldsWritable())
+	w.coll.Update(barrierID, toProto(fmsg{1001, 1001, 1001}), resource.WithCreateIfAbsent(), resource.WithAllFieldsWritable())
+	cancel()
+	bkey := w.storedKey(barrierID)
+	for k, sb := range subs {
+		<-sb.done
+		if k == quit {
+			continue
+		}
+		var stream []ochange
+		for _, c := range sb.got {
+			if c.id == bkey {
+				break
+			}
+			stream = append(stream, c)
+		}
+		it := make([]string, len(stream))
+		js := []any{}
+		for i, c := range stream {
+			it[i] = coqOChange(c)
+			js = append(js, jsOChange(c))
+		}
+		coq := vcoq.App("CaseCPull", optFldsW(g), g.idf.coq(), "None", coqOps(nil), ro.coq(), coqOps(after), vcoq.ListZ(codes), vcoq.List(nil), vcoq.List(it), coqKVs(final))
+		o.Add(vcoq.Case{Coq: coq, Key: coq, NonTrivial: len(stream) >= 2,
+			Tags: []string{"directed:cancel-during-delivery", "collection", fmt.Sprintf("subscribers=%d", nsub), fmt.Sprintf("subscriber-%d-of-%d", k+1, nsub)},
+			JSON: map[string]any{"kind": "collection-pull", "scenario": fmt.Sprintf("%d backpressured updates-only subscribers; consumer %d stops receiving, subscriber %d cancels while the second write is being delivered, then consumer %d resumes; this is subscriber %d", nsub, stall+1, quit+1, stall+1, k+1),
+				"writable": jsFlds(g.writable, g.hasW), "id_interceptor": g.idf.coq(), "equivalence": "None", "before": []any{}, "read": ro.js(), "after": jsOps(after), "after_codes": codes, "stream": js, "final_list": jsKVs(final)}})
+	}
+}
+
 // directedC04 appends the directed families to a C04 run.
 func (g *gen) directedC04(o *vcoq.Out, tier string) {
 	n := 60
@@ -532,6 +640,9 @@ func (g *gen) directedC04(o *vcoq.Out, tier string) {
 		}
 		if i%2 == 1 {
 			g.twoMasksValue(o)
+		}
+		if i%3 == 0 {
+			g.cancelDuringDelivery(o)
 		}
 	}
 }
